@@ -4,11 +4,12 @@
 #ifndef VERIF_VEC_CAP
 #define VERIF_VEC_CAP 8
 #endif
+#define VERIF_TYPE_PROCESS
 #include "scope_env.h"
 
 extern "C" {
 int verif_frameA_has[4], verif_frameA_to[4], verif_frameB_has[4], verif_frameB_to[4];
-int verif_errors, verif_thrown;
+int verif_errors, verif_thrown, verif_no_member;
 }
 namespace UTAP {
 verif_symrec verif_symtab[VERIF_NSYMS];
@@ -33,6 +34,46 @@ size_t expression_t::get_size__contract() const { return data == nullptr ? 0 : d
 const symbol_t expression_t::get_symbol__contract() const { return symbol_t(); }
 
 struct TypeException { int id; };
+struct HasNoMemberError { int name; HasNoMemberError(verif_name n): name(n) {} };
+/* ---- process types: members and derived types (ghost) ------------------------------------------------------------- */
+#define NMEM 3
+static int mem_name[NMEM], mem_type[NMEM], n_mem;
+#define NDER 8
+struct verif_derived { int op; int base; int a, b; const void* e; }; /* op 1 rename(a -> b), op 2 subst(symbol a, expression e) */
+static verif_derived der[NDER];
+static int n_der;
+#define DERIVED_BASE 40000
+type_t::verif_optidx type_t::find_index_of(int member_name) const
+{
+    verif_optidx r; r.has = false; r.v = 0;
+    for (int i = 0; i < NMEM; i++) { if (!r.has && i < n_mem && mem_name[i] == member_name) { r.has = true; r.v = (uint32_t)i; } }
+    return r;
+}
+type_t type_t::get_sub(uint32_t i) const { __CPROVER_assert(i < (uint32_t)n_mem, "stub: member index in range"); return type_t(mem_type[i]); }
+static type_t derive(int op, int base, int a, int b, const void* e)
+{
+    __CPROVER_assert(n_der < NDER, "stub: derived-type arena capacity");
+    der[n_der].op = op; der[n_der].base = base; der[n_der].a = a; der[n_der].b = b; der[n_der].e = e;
+    n_der++;
+    return type_t(DERIVED_BASE + n_der - 1);
+}
+type_t type_t::rename(int from_qualifier, int to_qualifier) const { return derive(1, id, from_qualifier, to_qualifier, nullptr); }
+type_t type_t::subst(const symbol_t& s, const expression_t& e) const { return derive(2, id, s.id, 0, e.data); }
+/* "<name>::" : the qualifier of a name identity */
+inline int verif_qual(verif_name n) { return 500 + n; }
+/* std::map<symbol_t, expression_t> */
+struct verif_symexpr_map
+{
+    bool has[VERIF_NSYMS];
+    expression_t val[VERIF_NSYMS];
+    int verif_cap() const { return VERIF_NSYMS; }
+    bool verif_has(int k) const { return has[k]; }
+    symbol_t verif_key(int k) const { return symbol_t(k); }
+    expression_t verif_val(int k) const { return val[k]; }
+};
+struct template_t;
+struct instance_t { symbol_t uid; verif_symexpr_map mapping; template_t* templ; };
+struct template_t : public instance_t {};
 #define VERIF_THROW do { verif_thrown = 1; return; } while (0)
 /* std::map<std::string, frame_t> dynamicFrames: one optional frame per name identity */
 struct verif_dynframes
@@ -57,6 +98,8 @@ public:
     verif_dynframes dynamicFrames;
     position_t position;
     void handle_error(const TypeException&) { verif_errors++; }
+    void handle_error(const HasNoMemberError&) { verif_errors++; verif_no_member++; }
+    void expr_dot_process(verif_name id, expression_t& expr, type_t type); /* the is_process() branch of expr_dot */
     expression_t make_constant(int value) const;
     void push_frame(frame_t);
     void popFrame();
@@ -143,6 +186,70 @@ void w07s_dot_process_var(int registered, int pname, int member_name, int member
     eb.fragments[0] = e;
     g_depth0 = (int)eb.frames.size(); g_top0 = eb.frames.top().which;
     eb.expr_dot_process_var(id, e);
+}
+/* expr_dot on a process expression: the process type has nmem members (names mn, types mt); its instance maps the
+   parameter symbols in `mapped` (bit k = symbol k of the parameter frame) to expressions; tn / pn = names of the
+   template and of the process */
+static instance_t proc_;
+static template_t templ_;
+static expression_t marg_[3];
+static expression_t::expression_data* pexpr_;
+static symbol_t psym_[3];
+void w07s_dot_process(int nmem, const int* mn, const int* mt, int mapped, int tn, int pn, int id)
+{
+    n_mem = nmem; n_der = 0; verif_no_member = 0;
+    for (int i = 0; i < NMEM; i++) { mem_name[i] = mn[i]; mem_type[i] = mt[i]; }
+    frame_t outer = eb.frames.top();
+    frame_t pf = frame_t::create(frame_t());
+    for (int k = 0; k < VERIF_NSYMS; k++) proc_.mapping.has[k] = false;
+    for (int k = 0; k < 3; k++) {
+        psym_[k] = pf.add_symbol(60 + k, type_t(0), position_t());
+        if ((mapped >> k) & 1) { marg_[k] = expression_t::create_constant(70 + k); proc_.mapping.has[psym_[k].id] = true; proc_.mapping.val[psym_[k].id] = marg_[k]; }
+    }
+    templ_.uid = outer.add_symbol(tn, type_t(0), position_t(), (void*)&templ_);
+    templ_.templ = &templ_;
+    proc_.templ = &templ_;
+    proc_.uid = outer.add_symbol(pn, type_t::create_primitive(PROCESS), position_t(), (void*)&proc_);
+    expression_t e = expression_t::create_identifier(proc_.uid, position_t());
+    pexpr_ = e.data;
+    eb.fragments[0] = e;
+    eb.expr_dot_process(id, e, e.get_type());
+    eb.fragments[0] = e;
+}
+/* the resulting fragment: what 0 = still the process expression itself, 1 kind, 2 index, 3 child is the process expression,
+   4 type id; derived-type chain of the result type: 10 = length, 11 = innermost derivation is rename(template:: -> process::),
+   12 = number of renames, 13 = base type of the chain, 20+k = number of substitutions of parameter k, 30+k = that
+   substitution carries parameter k's argument, 40 = substitutions of symbols that are not mapped parameters */
+int w07s_dot_result(int what)
+{
+    expression_t e = eb.fragments[0];
+    if (what == 0) return e.data == pexpr_;
+    if (what == 1) return (int)e.data->kind;
+    if (what == 2) return e.data->value.i;
+    if (what == 3) return e.data->sub.size() == 1 && e.data->sub[0].data == pexpr_;
+    int ty = e.data->type.id;
+    if (what == 4) return ty;
+    int len = 0, renames = 0, inner_is_rename = 0, base = ty, other = 0, cnt[3] = {0, 0, 0}, ok[3] = {0, 0, 0};
+    for (int step = 0; step < NDER; step++) {
+        if (base >= DERIVED_BASE && base < DERIVED_BASE + NDER) {
+            const verif_derived& d = der[base - DERIVED_BASE];
+            len++;
+            if (d.op == 1) { renames++; inner_is_rename = (d.base < DERIVED_BASE) && d.a == verif_qual(verif_symtab[templ_.uid.id].name) && d.b == verif_qual(verif_symtab[proc_.uid.id].name); }
+            else {
+                bool hit = false;
+                for (int k = 0; k < 3; k++) { if (d.a == psym_[k].id && ((proc_.mapping.has[psym_[k].id]))) { cnt[k]++; ok[k] = d.e == (const void*)marg_[k].data; hit = true; } }
+                if (!hit) other++;
+            }
+            base = d.base;
+        }
+    }
+    if (what == 10) return len;
+    if (what == 11) return inner_is_rename;
+    if (what == 12) return renames;
+    if (what == 13) return base;
+    if (what >= 20 && what < 23) return cnt[what - 20];
+    if (what >= 30 && what < 33) return ok[what - 30];
+    return other;
 }
 int w07s_depth0(void) { return g_depth0; }
 int w07s_top0(void) { return g_top0; }
